@@ -506,8 +506,8 @@ func (a *Analysis) decLayout(ct *CodecType, p *Path) *PathLayout {
 	}
 	c.tiles = func(ev *Event, n int64) []*FieldLayout {
 		type tile struct {
-			lo int64
-			f  *FieldLayout
+			lo, sz int64
+			f      *FieldLayout
 		}
 		var ts []tile
 		for _, st := range stores {
@@ -517,13 +517,38 @@ func (a *Analysis) decLayout(ct *CodecType, p *Path) *PathLayout {
 			}
 			lo, it, ord, ok := manualIntAt(st.Src, ev.ID)
 			if !ok {
+				// a single byte of the block: rec[k]
+				if el := stripCT(st.Src); el.Op == "elem" && len(el.Args) == 2 && stripCT(el.Args[0]).Op == "wire" && stripCT(el.Args[0]).ID == ev.ID {
+					if k, isC := el.Args[1].Int64(); isC {
+						ts = append(ts, tile{k, 1, &FieldLayout{Kind: "int", Type: "uint8", Name: c.fieldName(idx), GoField: idx, Pos: rootPos(ev), Ev: []*Event{ev}, WireIDs: []int{ev.ID}}})
+						continue
+					}
+				}
+				// a text cut out of the block: f(rec[a:b]) with constant bounds, judged as a fixed-width text of b-a bytes
+				if a0, b0, sub, okT := textTileOf(st.Src, ev.ID); okT {
+					tl := map[int]*Event{}
+					for k, l := range c.loops() {
+						tl[k] = l
+					}
+					tl[tileBaseKey] = &Event{Recv: sub}
+					ops, trim, pad, isByte := valuePath(st.Src, ev.ID, true, tl)
+					f := &FieldLayout{Kind: "fixed", Width: b0 - a0, Name: c.fieldName(idx), GoField: idx, Pos: rootPos(ev), Ev: []*Event{ev}, WireIDs: []int{ev.ID}, ValueOps: ops, Side: trim}
+					if pad != nil {
+						if isByte {
+							f.Pad = padString(pad)
+						} else {
+							f.Pad = cutsetByte(pad)
+						}
+					}
+					ts = append(ts, tile{a0, b0 - a0, f})
+				}
 				continue // some other use of a number taken from these bytes (a look-up key …); the tiling below must still be complete
 			}
 			sz, _ := fixedSize(it)
 			if sz == 1 {
 				ord = ""
 			}
-			ts = append(ts, tile{lo, &FieldLayout{Kind: "int", Type: typeStr(it), Order: ord, Name: c.fieldName(idx), GoField: idx, Pos: rootPos(ev), Ev: []*Event{ev}, WireIDs: []int{ev.ID}}})
+			ts = append(ts, tile{lo, sz, &FieldLayout{Kind: "int", Type: typeStr(it), Order: ord, Name: c.fieldName(idx), GoField: idx, Pos: rootPos(ev), Ev: []*Event{ev}, WireIDs: []int{ev.ID}}})
 		}
 		if len(ts) < 2 {
 			return nil
@@ -535,15 +560,10 @@ func (a *Analysis) decLayout(ct *CodecType, p *Path) *PathLayout {
 			if t.lo != off {
 				return nil
 			}
-			var sz int64
-			switch t.f.Type {
-			default:
-				sz = map[string]int64{"uint16": 2, "int16": 2, "uint32": 4, "int32": 4, "uint64": 8, "int64": 8}[t.f.Type]
-			}
-			if sz == 0 {
+			if t.sz <= 0 {
 				return nil
 			}
-			off += sz
+			off += t.sz
 			out = append(out, t.f)
 		}
 		if off != n {
@@ -753,4 +773,75 @@ func freshEmptySlice(v *Val) bool {
 		}
 	}
 	return false
+}
+
+// textTileOf: v is a string-valued term derived from exactly one sub-slice wire#id[a:b] with constant bounds (and from
+// no other part of those bytes); returns the bounds and the sub-slice term.
+func textTileOf(v *Val, id int) (a, b int64, sub *Val, ok bool) {
+	if v == nil || v.Type == nil || !isStringOrBytes(v.Type) {
+		return 0, 0, nil, false
+	}
+	n, bad := 0, false
+	var walk func(x *Val)
+	walk = func(x *Val) {
+		if x == nil || bad {
+			return
+		}
+		if x.Op == "slice" && len(x.Args) >= 3 {
+			if w := stripCT(x.Args[0]); w.Op == "wire" && w.ID == id {
+				lo, okL := int64(0), true
+				if x.Args[1] != nil {
+					lo, okL = x.Args[1].Int64()
+				}
+				hi, okH := int64(0), false
+				if x.Args[2] != nil {
+					hi, okH = x.Args[2].Int64()
+				}
+				if !okL || !okH || hi <= lo {
+					bad = true
+					return
+				}
+				if sub == nil || sub.Key() == x.Key() {
+					a, b, sub = lo, hi, x
+					n++
+				} else {
+					bad = true
+				}
+				return
+			}
+		}
+		if x.Op == "wire" && x.ID == id {
+			bad = true // the bytes used other than through that one sub-slice
+			return
+		}
+		for _, y := range x.Args {
+			walk(y)
+		}
+	}
+	walk(v)
+	return a, b, sub, !bad && n > 0
+}
+
+// replaceVal returns v with every occurrence of the term old (by key) replaced by new.
+func replaceVal(v, old, new *Val) *Val {
+	if v == nil {
+		return nil
+	}
+	if v.Key() == old.Key() {
+		return new
+	}
+	changed := false
+	args := make([]*Val, len(v.Args))
+	for i, x := range v.Args {
+		args[i] = replaceVal(x, old, new)
+		if args[i] != x {
+			changed = true
+		}
+	}
+	if !changed {
+		return v
+	}
+	c := *v
+	c.Args = args
+	return &c
 }
